@@ -56,6 +56,9 @@ CHECKS["C06"] = src("MC_Cons.tla gives big-step meaning to consumer functions th
 CHECKS["C14"] = src("MC_Sched.tla: K iterators (same generator function several times, different functions, recursive delegation, closure state) each in its own world, TLC enumerates EVERY interleaving with M advances each and checks the invariant that per-iterator observations equal the solo run (that is what independence means); every complete schedule is replayed on the real compiled generators on one goroutine, and every tuple is consumed with one goroutine per iterator in a driver built with -race (GORACE=halt_on_error); a differing per-iterator trace or a reported race is a violation.",
   "The data-race half is decided by Go's race detector during replay -- TLA+ has no Go memory model. Bounded: K=2,M=3 and K=3,M=2 (quick); K=2,M=4 and K=3,M=3 (thorough: 1680 schedules per tuple).", "7 C14")
 
+CHECKS["C04"] = src("CoSource.tla embeds Go's range semantics (RangeSem.tla: expression evaluated once, header snapshot with live element reads for slices, COPY for arrays, byte offsets/U+FFFD for strings, 0..n-1, channel until close; `:=` declares per-iteration variables, `=` assigns function-level ones, blank/omitted forms). TLC enumerates the family: collection kind x variable form x range expression as variable or call x body (yield key/value, mutations of the collections, guarded break/continue, nesting, the loop inside a closure nested in the generator) and emits expected traces; each program goes through the real compiler and is compared. Map range loops inside generators (unspecified order; delete/insert during the loop; nil interface keys/values) are compiled, drained, and their recorder logs validated as traces against Trace_Map.tla.",
+  "Known finding KF03b (arrays ranged live instead of over a copy) is a named as-built clause in RangeNext; TLC emits the ideal and the as-built expectation and only an exact match of the latter is reported as KNOWN-FINDING. Bounded: loop + 1 (quick) / 2 (thorough) body statements, fixed small collections.", "7 C04, 3.7")
+
 NOT_YET = {}
 
 def main():
